@@ -194,7 +194,7 @@ func runScriptSetup(root, text string, setup [][2]string) (*recorder, *tsh.Resul
 	}
 	t.RunRoot(func() { testscript.RunT(t, p) })
 	if len(t.Results) != 1 {
-		kit.Harness("RunT ran %d subtests (%s)", len(t.Results), t.RootFatal)
+		kit.UnderTestFailed("RunT was given 1 script and ran %d subtests (%s)", len(t.Results), t.RootFatal)
 	}
 	return rec, t.Results[0]
 }
